@@ -397,7 +397,7 @@ var leanKeywords = map[string]bool{"end": true, "from": true, "fun": true, "at":
 	"notation": true, "infix": true, "prefix": true, "postfix": true, "deriving": true, "extends": true, "using": true,
 	"calc": true, "return": true, "for": true, "mut": true, "try": true, "catch": true, "finally": true, "unless": true,
 	"nomatch": true, "nofun": true, "Prop": true, "Sort": true, "set_option": true, "attribute": true, "universe": true,
-	"inductive": true, "abbrev": true, "example": true, "axiom": true, "opaque": true, "omit": true, "include": true}
+	"inductive": true, "rec": true, "abbrev": true, "example": true, "axiom": true, "opaque": true, "omit": true, "include": true}
 
 func leanIdent(s string) string {
 	if s == "_" {
